@@ -870,9 +870,24 @@ void auto_xact_t::extend_xact(xact_base_t& xact, parse_context_t& context)
         }
 
         new_post->add_flags(ITEM_GENERATED);
-        new_post->account =
-          journal->register_account(account->fullname(), new_post,
-                                    journal->master);
+        {
+          // The account of the rule's line was resolved, aliases included,
+          // where the rule was read (parse_post).  Registering it again by
+          // its full name must not expand aliases a second time, nor apply
+          // aliases that were defined after the rule.
+          const bool saved_no_aliases = journal->no_aliases;
+          journal->no_aliases = true;
+          try {
+            new_post->account =
+              journal->register_account(account->fullname(), new_post,
+                                        journal->master);
+          }
+          catch (...) {
+            journal->no_aliases = saved_no_aliases;
+            throw;
+          }
+          journal->no_aliases = saved_no_aliases;
+        }
 
         if (deferred_notes) {
           foreach (deferred_tag_data_t& data, *deferred_notes) {
